@@ -26,7 +26,8 @@ REQUIRED_FEATURES = ["window:anchored", "window:disjoint", "window:overlap", "wi
                      "window:overlap:T", "window:nested:T", "window:disjoint:T", "spans:edge-on-empty-row",
                      "file:legacy-int32-offset-index", "file:legacy-int32-offset-index:nnz^2>=2^31",
                      "file:pixel-stored-as-two-records", "spelling:slice-below-axis", "spelling:slice-beyond-end",
-                     "history:long-lived-object-after-file-recreated-in-place"]
+                     "history:long-lived-object-after-file-recreated-in-place",
+                     "spelling:narrow-numpy-scalar-at-type-maximum"]
 
 PATS = ["dense", "sparse30", "sparse70", "emptyrows", "nodiag", "diag", "fullrow", "lastrow", "isolated",
         "sparse05", "empty", "emptyrows"]
@@ -378,6 +379,29 @@ def run_spell(ctx, shard):
             ctx.evaluations += nq
             mem.close()
             f.close()
+            if k == 0:
+                # a scalar index given as a NARROW numpy integer that sits at the maximum of its type (int8 127,
+                # uint8 255) selects the one-element range like any other scalar (F37: `s + 1` wrapped)
+                n2 = 258
+                bt2 = [["b", list(range(0, n2 + 1))]]
+                P3 = {(0, 127): 1, (127, 127): 2, (127, 200): 3, (255, 255): 4, (3, 255): 5, (255, 257): 6}
+                if not symm:
+                    P3.update({(127, 5): 7, (255, 9): 8})
+                p3 = ctx.path()
+                make_cooler(p3, bt2, P3, symm=symm)
+                D3 = model.dense(P3, n2, symm)
+                m3 = cooler.Cooler(p3).matrix(balance=False)
+                c.feature("spelling:narrow-numpy-scalar-at-type-maximum")
+                for idx_ in (np.int8(127), np.uint8(255), np.uint8(127), np.int16(127)):
+                    v_ = int(idx_)
+                    try:
+                        okn = np.array_equal(m3[idx_, :], D3[v_:v_ + 1, :]) and np.array_equal(m3[:, idx_], D3[:, v_:v_ + 1])
+                    except Exception:  # noqa
+                        okn = False
+                    nq += 2
+                    c.check(okn, "slice-spelling:narrow-numpy-scalar", f"matrix[{idx_!r} ({type(idx_).__name__}), :] is not row {v_} "
+                            "of the full matrix")
+                os.remove(p3)
             # history: the file is re-created in place (same bins, other pixels); the Cooler objects built from the path
             # and already queried above are used again - the windows must be those of the matrix stored NOW
             P2 = gen.gen_pixels(rng, n, symm, PATS[(k + 5) % len(PATS)])
